@@ -28,3 +28,37 @@ pub uninterp spec fn byte_find(s: Seq<char>, p: Seq<char>) -> Option<int>;
 pub fn v_str_find(s: &str, p: &str) -> (r: Option<usize>)
     ensures (r is Some) == (byte_find(s@, p@) is Some), r is Some ==> r->0 == byte_find(s@, p@)->0, r is Some ==> r->0 <= byte_len(s@)
 { s.find(p) }
+
+// ---- plain string operations the text commands are documented to be (std functions; trusted to match their std documentation) ----
+pub open spec fn bool_str(b: bool) -> Seq<char> { if b { "true"@ } else { "false"@ } }
+/// p occurs in s as a contiguous run of characters (str::contains with a string pattern)
+pub open spec fn has_sub(s: Seq<char>, p: Seq<char>) -> bool { exists|i: int| 0 <= i && i + p.len() <= s.len() && #[trigger] s.subrange(i, i + p.len()) == p }
+#[verifier::external_body]
+pub fn v_str_contains(s: &str, p: &str) -> (r: bool) ensures r == has_sub(s@, p@) { s.contains(p) }
+#[verifier::external_body]
+pub fn v_string_eq(a: &String, b: &String) -> (r: bool) ensures r == (a@ == b@) { a == b }
+#[verifier::external_body]
+pub fn v_str_is_empty(s: &str) -> (r: bool) ensures r == (s@.len() == 0) { s.is_empty() }
+/// str::replace: every non-overlapping occurrence of `from`, left to right
+pub uninterp spec fn replace_spec(s: Seq<char>, from: Seq<char>, to: Seq<char>) -> Seq<char>;
+#[verifier::external_body]
+pub fn v_str_replace(s: &str, from: &str, to: &str) -> (r: String) ensures r@ == replace_spec(s@, from@, to@) { s.replace(from, to) }
+/// byte offset of the last occurrence of p in s (str::rfind), None when absent
+pub uninterp spec fn byte_rfind(s: Seq<char>, p: Seq<char>) -> Option<int>;
+#[verifier::external_body]
+pub fn v_str_rfind(s: &str, p: &str) -> (r: Option<usize>)
+    ensures (r is Some) == (byte_rfind(s@, p@) is Some), r is Some ==> r->0 == byte_rfind(s@, p@)->0
+{ s.rfind(p) }
+pub uninterp spec fn upper(s: Seq<char>) -> Seq<char>;
+#[verifier::external_body]
+pub fn v_to_uppercase(s: &str) -> (r: String) ensures r@ == upper(s@) { s.to_uppercase() }
+// floating point: values, parsing and order are not interpreted (the verifier has no theory of f64 here)
+pub uninterp spec fn parse_f64_spec(s: Seq<char>) -> Option<f64>;
+pub uninterp spec fn f64_lt(a: f64, b: f64) -> bool;
+pub uninterp spec fn f64_gt(a: f64, b: f64) -> bool;
+#[verifier::external_body]
+pub fn v_parse_f64(s: &str) -> (r: Result<f64, ()>) ensures (r is Ok) == (parse_f64_spec(s@) is Some), r is Ok ==> r->Ok_0 == parse_f64_spec(s@)->0 { s.parse::<f64>().map_err(|_| ()) }
+#[verifier::external_body]
+pub fn v_f64_lt(a: f64, b: f64) -> (r: bool) ensures r == f64_lt(a, b) { a < b }
+#[verifier::external_body]
+pub fn v_f64_gt(a: f64, b: f64) -> (r: bool) ensures r == f64_gt(a, b) { a > b }
